@@ -129,3 +129,60 @@ func c12Big(ctx *Ctx) {
 		ctx.R.Path("big-lookup-histories", 1)
 	})
 }
+
+// c12RealPause: the one history per shard that really waits. A cache with a lifetime of a few hundred milliseconds serves hits,
+// misses and a capacity eviction, then nothing happens for longer than a second and longer than the lifetime (a user who
+// comes back after a pause), then the same keys are asked for again: they have outlived the lifetime (misses), and the
+// statistics still count everything since the last clear.
+func c12RealPause(ctx *Ctx) {
+	ttl := []time.Duration{300 * time.Millisecond, 100 * time.Millisecond, 700 * time.Millisecond, time.Second}[ctx.Shard%4]
+	pause := ttl + []time.Duration{900 * time.Millisecond, 1100 * time.Millisecond, 1500 * time.Millisecond}[(ctx.Shard/4)%3]
+	cs := map[string]interface{}{"kind": "lru-real-pause", "shard": ctx.Shard, "capacity": 2, "ttl": ttl.String(), "pause": pause.String()}
+	ctx.R.Begin(cs)
+	ctx.R.Eval(1)
+	viol := func(clause, method, format string, a ...interface{}) {
+		ctx.R.Violate(vlib.Violation{Property: "C12", Clause: clause, Path: method + "/after-a-real-pause", Detail: fmt.Sprintf(format, a...), Witness: cs})
+	}
+	ctx.R.Guard("C12", "lru-real-pause", cs, func() {
+		t0 := time.Now()
+		c := cache.NewLRUCache(2, ttl)
+		c.Put("a", 1)
+		c.Put("b", 2)
+		_, h1 := c.Get("a")
+		_, h2 := c.Get("b")
+		_, m1 := c.Get("zz")
+		c.Put("c", 3) // discards a
+		if time.Since(t0) > ttl/2 {
+			ctx.R.Inconcl("real-time-exceeded")
+			return
+		}
+		if !h1 || !h2 || m1 {
+			viol("get-value", "Get", "before the pause: a found=%v, b found=%v, zz found=%v", h1, h2, m1)
+			return
+		}
+		st := c.Stats()
+		if st.Hits != 2 || st.Misses != 1 || st.Evictions != 1 || st.Size != 2 {
+			viol("stats", "Stats", "before the pause: hits=%d misses=%d evictions=%d size=%d; the history has 2 / 1 / 1 / 2", st.Hits, st.Misses, st.Evictions, st.Size)
+			return
+		}
+		time.Sleep(pause)
+		if _, ok := c.Get("b"); ok {
+			viol("expiry-stale-hit", "Get", "an entry stored %v ago is still served, lifetime %v", time.Since(t0).Round(time.Millisecond), ttl)
+			return
+		}
+		st = c.Stats()
+		// (the lookup removed the expired b; c may still be counted until it is looked up or swept; an expired removal may or may not count as an eviction)
+		if st.Hits != 2 || st.Misses != 2 || st.Evictions < 1 || st.Evictions > 3 || st.Size > 1 {
+			viol("stats", "Stats", "after a pause of %v and one lookup of an expired key: hits=%d misses=%d evictions=%d size=%d; since the last clear 2 hits, 2 misses and 1 capacity eviction happened (no Clear was called)",
+				pause, st.Hits, st.Misses, st.Evictions, st.Size)
+			return
+		}
+		n := c.CleanupExpired()
+		if n != st.Size {
+			viol("sweeps", "CleanupExpired", "after the pause %d expired entries were still held, the sweep reports %d removals", st.Size, n)
+			return
+		}
+		ctx.R.Path("real-pause-histories", 1)
+		ctx.R.Nontriv("lru-real-pause", ctx.Seed, ctx.Shard)
+	})
+}
